@@ -93,7 +93,7 @@ type lnk struct {
 }
 
 func (l lnk) coq() string {
-	return vh.App("mkLink", vh.Bytes([]byte(l.name)), vh.ZU(l.size), cidCoq(l.c))
+	return vh.App("mkLink", B([]byte(l.name)), vh.ZU(l.size), cidCoq(l.c))
 }
 func (l lnk) String() string { return fmt.Sprintf("%q/%d/%s", l.name, l.size, l.c) }
 
@@ -101,10 +101,124 @@ func cidCoq(c cid.Cid) string {
 	if !c.Defined() {
 		return "[]"
 	}
-	return vh.Bytes(c.Bytes())
+	return B(c.Bytes())
 }
 
-func dataCoq(d []byte) string { return vh.Opt(d != nil, vh.Bytes(d)) }
+func dataCoq(d []byte) string { return vh.Opt(d != nil, B(d)) }
+
+// ---------- compact rendering of byte strings ----------
+// Type-checking long literal lists dominates the cost of a cases file, so byte
+// strings of the fixed pools are defined once in the preamble (globalSyms) and
+// byte strings that occur more than once in a case are let-bound in that case.
+var (
+	globalSyms   = map[string]string{}
+	preambleDefs []string
+)
+
+// lit renders a byte string literally, runs of 8 or more equal bytes as [repeat].
+func lit(b []byte) string {
+	var segs []string
+	var plain []byte
+	flush := func() {
+		if len(plain) > 0 {
+			segs = append(segs, vh.Bytes(plain))
+			plain = nil
+		}
+	}
+	for i := 0; i < len(b); {
+		j := i
+		for j < len(b) && b[j] == b[i] {
+			j++
+		}
+		if j-i >= 8 {
+			flush()
+			segs = append(segs, fmt.Sprintf("repeat %d %d%%nat", b[i], j-i))
+		} else {
+			plain = append(plain, b[i:j]...)
+		}
+		i = j
+	}
+	flush()
+	switch len(segs) {
+	case 0:
+		return "[]"
+	case 1:
+		if strings.HasPrefix(segs[0], "[") {
+			return segs[0]
+		}
+	}
+	return "(" + strings.Join(segs, " ++ ") + ")"
+}
+
+func defGlobal(name string, b []byte) {
+	if _, ok := globalSyms[string(b)]; ok || len(b) < 4 {
+		return
+	}
+	globalSyms[string(b)] = name
+	preambleDefs = append(preambleDefs, "Definition "+name+" : bytes := "+lit(b)+".")
+}
+
+type interner struct {
+	idx   map[string]int
+	items [][]byte
+	count []int
+}
+
+var cur *interner
+
+func newInterner() *interner { return &interner{idx: map[string]int{}} }
+
+// B renders a byte string: a preamble name, a per-case placeholder, or a literal.
+func B(b []byte) string {
+	if name, ok := globalSyms[string(b)]; ok {
+		return name
+	}
+	if len(b) < 8 || cur == nil {
+		return lit(b)
+	}
+	i, ok := cur.idx[string(b)]
+	if !ok {
+		i = len(cur.items)
+		cur.idx[string(b)] = i
+		cur.items = append(cur.items, append([]byte(nil), b...))
+		cur.count = append(cur.count, 0)
+	}
+	cur.count[i]++
+	return fmt.Sprintf("@@%d@@", i)
+}
+
+// finish replaces the placeholders of one case: let-bound when used twice or more.
+func (in *interner) finish(term string) string {
+	var lets strings.Builder
+	for i, b := range in.items {
+		tok := fmt.Sprintf("@@%d@@", i)
+		if in.count[i] >= 2 {
+			fmt.Fprintf(&lets, "let r%d : bytes := %s in ", i, lit(b))
+			term = strings.ReplaceAll(term, tok, fmt.Sprintf("r%d", i))
+		} else {
+			term = strings.ReplaceAll(term, tok, lit(b))
+		}
+	}
+	if lets.Len() > 0 {
+		return "(" + lets.String() + term + ")"
+	}
+	return term
+}
+
+func initSyms() {
+	for i, c := range linkCids {
+		defGlobal(fmt.Sprintf("K%d", i), c.Bytes())
+	}
+	for i := 0; i < 6; i++ {
+		defGlobal(fmt.Sprintf("CH%d", i), child(i).Cid().Bytes())
+	}
+	defGlobal("NLONG", []byte(names[len(names)-1]))
+	for _, n := range []int{127, 128, 129} {
+		defGlobal(fmt.Sprintf("D80x%d", n), bytes.Repeat([]byte{0x80}, n))
+	}
+	defGlobal("DFEx200", bytes.Repeat([]byte{0xfe}, 200))
+	defGlobal("D07x1024", bytes.Repeat([]byte{7}, 1024))
+}
 
 func linksCoq(ls []*format.Link) string {
 	return vh.ListOf(ls, func(l *format.Link) string { return lnk{l.Name, l.Size, l.Cid}.coq() })
@@ -216,6 +330,8 @@ type runResult struct {
 
 // runHistory applies h to a real ProtoNode and renders the CRun case.
 func runHistory(t *testing.T, h history) runResult {
+	cur = newInterner()
+	defer func() { cur = nil }()
 	n := merkledag.NodeWithData(h.d0)
 	used := map[int]bool{0: true}
 	for _, o := range h.ops {
@@ -245,7 +361,7 @@ func runHistory(t *testing.T, h history) runResult {
 				row = append(row, "("+vh.Z(int64(b.id))+", "+vh.Z(int64(cidID(mustSum(b.sum, raw))))+")")
 			}
 		}
-		tab = append(tab, "("+vh.Bytes(raw)+", "+vh.List(row)+")")
+		tab = append(tab, "("+B(raw)+", "+vh.List(row)+")")
 	}
 	var ops, obs []string
 	okErr := func(err error) string {
@@ -258,7 +374,7 @@ func runHistory(t *testing.T, h history) runResult {
 	for _, o := range h.ops {
 		switch o.k {
 		case kAdd:
-			ops = append(ops, vh.App("OAdd", vh.Bytes([]byte(o.l.name)), vh.ZU(o.l.size), cidCoq(o.l.c)))
+			ops = append(ops, vh.App("OAdd", B([]byte(o.l.name)), vh.ZU(o.l.size), cidCoq(o.l.c)))
 			obs = append(obs, okErr(n.AddRawLink(o.l.name, &format.Link{Name: "ignored", Size: o.l.size, Cid: o.l.c})))
 			mutations++
 		case kAddNode:
@@ -268,11 +384,11 @@ func runHistory(t *testing.T, h history) runResult {
 			if err != nil {
 				t.Fatal(err)
 			}
-			ops = append(ops, vh.App("OAdd", vh.Bytes([]byte(o.l.name)), vh.ZU(sz), cidCoq(ch.Cid())))
+			ops = append(ops, vh.App("OAdd", B([]byte(o.l.name)), vh.ZU(sz), cidCoq(ch.Cid())))
 			obs = append(obs, okErr(n.AddNodeLink(o.l.name, ch)))
 			mutations++
 		case kRemove:
-			ops = append(ops, vh.App("ORemove", vh.Bytes([]byte(o.l.name))))
+			ops = append(ops, vh.App("ORemove", B([]byte(o.l.name))))
 			obs = append(obs, okErr(n.RemoveNodeLink(o.l.name)))
 			mutations++
 		case kSetData:
@@ -311,7 +427,7 @@ func runHistory(t *testing.T, h history) runResult {
 			if err != nil {
 				t.Fatal(err)
 			}
-			ops = append(ops, vh.App("OUpdate", vh.Bytes([]byte(o.l.name)), vh.ZU(sz), cidCoq(ch.Cid())))
+			ops = append(ops, vh.App("OUpdate", B([]byte(o.l.name)), vh.ZU(sz), cidCoq(ch.Cid())))
 			nn, err := n.UpdateNodeLink(o.l.name, ch)
 			if err == nil {
 				n = nn
@@ -336,7 +452,7 @@ func runHistory(t *testing.T, h history) runResult {
 		case kRaw:
 			ops = append(ops, "RRaw")
 			raw := n.RawData()
-			obs = append(obs, vh.App("BRaw", vh.Bytes(raw)))
+			obs = append(obs, vh.App("BRaw", B(raw)))
 			table(raw)
 			reads++
 		case kLinks:
@@ -348,7 +464,7 @@ func runHistory(t *testing.T, h history) runResult {
 			obs = append(obs, vh.App("BData", dataCoq(n.Data())))
 		case kTree:
 			ops = append(ops, "RTree")
-			obs = append(obs, vh.App("BTree", vh.ListOf(n.Tree("", -1), func(s string) string { return vh.Bytes([]byte(s)) })))
+			obs = append(obs, vh.App("BTree", vh.ListOf(n.Tree("", -1), func(s string) string { return B([]byte(s)) })))
 			reads++
 		case kDecode:
 			ops = append(ops, "RDecode")
@@ -358,7 +474,7 @@ func runHistory(t *testing.T, h history) runResult {
 			reads++
 		}
 	}
-	term := vh.App("CRun", dataCoq(h.d0), vh.List(tab), vh.List(ops), vh.List(obs))
+	term := cur.finish(vh.App("CRun", dataCoq(h.d0), vh.List(tab), vh.List(ops), vh.List(obs)))
 	return runResult{term: term, nontrivial: mutations >= 3 && reads >= 3 && staleWindow,
 		key: strings.Join(ops, ";") + "|" + dataCoq(h.d0)}
 }
@@ -706,7 +822,8 @@ func TestC11(t *testing.T) {
 		"Copy/UpdateNodeLink/re-decode, reads Cid/RawData/Links/Data/Tree/DecodeProtobuf interleaved) + 5 final reads, every answer compared; " +
 		"non-trivial = at least 3 mutations, 3 reads and one builder change; distinct by op sequence. " +
 		"Second stream: DecodeProtobuf on non-canonical / malformed encodings against the Coq decoder")
-	cs := vh.NewCases(e, "From V Require Import lib.C11_DagPb model.M_C11.\nOpen Scope Z_scope.", "case", "check_case", 250)
+	initSyms()
+	cs := vh.NewCases(e, "From V Require Import lib.C11_DagPb model.M_C11.\nOpen Scope Z_scope.\n"+strings.Join(preambleDefs, "\n"), "case", "check_case", 250)
 	nRun := e.Pick(1000, 25000)
 	nDec := e.Pick(750, 15000)
 	hs := corpus()
@@ -740,7 +857,9 @@ func TestC11(t *testing.T) {
 			bs, kind = genEncoding(e)
 		}
 		n, err := merkledag.DecodeProtobuf(bs)
-		term := vh.App("CDec", vh.Bytes(bs), decodedCoq(n, err))
+		cur = newInterner()
+		term := cur.finish(vh.App("CDec", lit(bs), decodedCoq(n, err)))
+		cur = nil
 		rp := map[string]any{"kind": "decode", "bytes": fmt.Sprintf("%x", bs), "gen": kind, "accepted": err == nil}
 		cs.Add(term, rp)
 		st.Case("D|"+string(bs), len(bs) > 4)
